@@ -64,6 +64,7 @@ type xferResult struct {
 	alive            int
 	aliveAt          string
 	stacks           string
+	held             int32
 	progCalls        int
 	progPrev         int
 	progNonMono      int
@@ -86,6 +87,7 @@ type xferOpts struct {
 	cfg        streamCfg
 	timeout    time.Duration
 	progress   bool
+	holdHasher int
 	fault      *faultPlan
 }
 
@@ -119,6 +121,13 @@ func runXfer(src fsutil.FS, dest string, o xferOpts, log *evLog) *xferResult {
 			mu.Unlock()
 			if o.fault != nil && o.fault.kind == "hasher" && hn >= o.fault.at {
 				return nil, errInjected
+			}
+			if o.holdHasher > 0 && os.FileMode(st.Mode)&os.ModeType == 0 && st.Linkname == "" && atomic.CompareAndSwapInt32(&res.held, 0, 1) {
+				// a slow user callback: the first file's hasher returns only after many later requests have been handed to the
+				// stream (its own request then arrives long after requests for much higher ids)
+				for t0 := time.Now(); int(atomic.LoadInt32(&log.reqs)) < o.holdHasher && time.Since(t0) < 3*time.Second; {
+					time.Sleep(time.Millisecond)
+				}
 			}
 			h := sha256.New()
 			h.Write(statHeader(st))
@@ -307,6 +316,7 @@ func parseXferOpts(m Op) xferOpts {
 		o.cfg.Cap = 32
 	}
 	o.progress = m.boolean("progress")
+	o.holdHasher = m.num("hold_hasher")
 	if ms := m.num("timeout_ms"); ms > 0 {
 		o.timeout = time.Duration(ms) * time.Millisecond
 	}
@@ -348,6 +358,7 @@ func buildSource(o Op, dir string, log *evLog) (fsutil.FS, *memFS, []interface{}
 		fs = f
 	} else {
 		mfs = newMemFS(tree, log)
+		mfs.eofWithData = src.boolean("eof_with_data")
 		fs = mfs
 		view = mfs.view()
 	}
